@@ -13,3 +13,17 @@ Inductive infix_kind :=
 | IK_ParseFunctionCallExpression.
 
 Inductive postfix_kind := QK_ParsePostfixExpression.
+
+(* the parse methods selected by the first token of a statement / declaration
+   (Gen/ParserDispatch.v, regenerated from the switch statements of ParseStatement,
+   ParseSnippetVCL and Parse) *)
+Inductive stmt_method :=
+| SM_ParseBlockStatement | SM_ParseSetStatement | SM_ParseUnsetStatement | SM_ParseRemoveStatement
+| SM_ParseAddStatement | SM_ParseCallStatement | SM_ParseDeclareStatement | SM_ParseErrorStatement
+| SM_ParseEsiStatement | SM_ParseLogStatement | SM_ParseRestartStatement | SM_ParseReturnStatement
+| SM_ParseSyntheticStatement | SM_ParseSyntheticBase64Statement | SM_ParseIfStatement
+| SM_ParseSwitchStatement | SM_ParseGotoStatement | SM_ParseIncludeStatement | SM_ParseBreakStatement
+| SM_ParseFallthroughStatement | SM_ident_dispatch
+| SM_ParseAclDeclaration | SM_ParseImportStatement | SM_ParseBackendDeclaration
+| SM_ParseDirectorDeclaration | SM_ParseTableDeclaration | SM_ParseSubroutineDeclaration
+| SM_ParsePenaltyboxDeclaration | SM_ParseRatecounterDeclaration.
